@@ -981,6 +981,11 @@ func (in *Interp) lookupMethod(iv Iface, m *types.Func) FuncV {
 			}}
 		}
 		if m.Name() == "Error" || m.Name() == "String" {
+			if eo := in.errObjOf(iv); eo != nil && m.Name() == "Error" {
+				// engine-made error (fmt.Errorf, grpc status): its real message
+				msg := eo.msg
+				return FuncV{Native: func(in *Interp, args []Value) Value { return msg }}
+			}
 			if s, ok := iv.V.(Str); ok {
 				return FuncV{Native: func(in *Interp, args []Value) Value { return s }}
 			}
